@@ -214,6 +214,9 @@ func (s *Store) Put(obj client.Object) {
 		s.uid++
 		md["uid"] = "uid-" + strconv.Itoa(s.uid)
 	}
+	if str(md, "creationTimestamp") == "" {
+		md["creationTimestamp"] = createdAt
+	}
 	ns, name := obj.GetNamespace(), obj.GetName()
 	if i := s.find(group, kind, ns, name); i >= 0 {
 		s.entries[i].doc = doc
@@ -493,6 +496,7 @@ func (s *Store) Create(_ context.Context, obj client.Object, opts ...client.Crea
 		md["uid"] = "uid-" + strconv.Itoa(s.uid)
 	}
 	md["generation"] = int64(1)
+	md["creationTimestamp"] = createdAt
 	s.entries = append(s.entries, &entry{group: group, kind: kind, ns: c.NS, name: name, doc: doc})
 	c.Effect = true
 	if f == FaultErrEffect {
@@ -561,6 +565,21 @@ func (s *Store) Update(_ context.Context, obj client.Object, opts ...client.Upda
 	}
 	s.mutated()
 	return nil
+}
+
+const createdAt = "2024-01-01T00:00:00Z"
+
+// serverOwned copies the metadata fields only the API server may change from
+// the current document into next.
+func serverOwned(cur, next map[string]any) {
+	cm, nm := metaOf(cur), metaOf(next)
+	for _, k := range []string{"uid", "creationTimestamp", "deletionTimestamp", "generation", "resourceVersion", "name", "namespace"} {
+		if v, ok := cm[k]; ok {
+			nm[k] = v
+		} else {
+			delete(nm, k)
+		}
+	}
 }
 
 // replace installs doc as the new content of entry i, keeping server-owned
@@ -740,6 +759,7 @@ func (s *Store) Patch(_ context.Context, obj client.Object, p client.Patch, opts
 			s.uid++
 			md["uid"] = "uid-" + strconv.Itoa(s.uid)
 			md["generation"] = int64(1)
+			md["creationTimestamp"] = createdAt
 			delete(md, "managedFields")
 			s.entries = append(s.entries, &entry{group: group, kind: kind, ns: c.NS, name: c.Name, doc: patch})
 			c.Effect = true
@@ -757,6 +777,7 @@ func (s *Store) Patch(_ context.Context, obj client.Object, p client.Patch, opts
 		next := runtime.DeepCopyJSON(s.entries[i].doc)
 		applyMerge(next, patch)
 		applyMetadata(next, patch)
+		serverOwned(s.entries[i].doc, next)
 		// the API server refuses an object with two controller references
 		if controllerCount(next) > 1 {
 			c.Err = true
@@ -807,6 +828,7 @@ func (s *Store) Patch(_ context.Context, obj client.Object, p client.Patch, opts
 			return kerrors.NewConflict(gr(group, kind), c.Name, errString("the object has been modified"))
 		}
 		mergePatch(next, patch)
+		serverOwned(s.entries[i].doc, next)
 		if c.DryRun {
 			s.log(c)
 			return nil
